@@ -36,8 +36,9 @@ func WithNodeSize(sizes map[string]graph.Size) Option {
 	return func(o *options) {
 		o.params.NodeSizeFunc = func(n *ig.Node) {
 			// nodes that are not in the map keep the size they have, e.g. the one set by WithNodeFixedSize
+			// only the width and the height: graph.Size also has a position, which belongs to the layout
 			if size, ok := sizes[n.ID]; ok {
-				n.Size = size
+				n.W, n.H = size.W, size.H
 			}
 		}
 	}
